@@ -16,7 +16,7 @@ from vmon.simkit import Mon, Top, spell_features, new_map
 
 from amaranth import Module, Shape, unsigned, signed, Elaboratable
 from amaranth.hdl import Fragment
-from amaranth.lib import wiring, enum as am_enum
+from amaranth.lib import wiring, enum as am_enum, data as am_data
 from amaranth.lib.wiring import In, Out, flipped
 
 from amaranth_soc import csr, event, gpio, wishbone
@@ -267,7 +267,10 @@ def grid(cls, rng):
                 out.append(((w, a), lambda w=w, acc=acc: csr.Element.Signature(fresh(w), acc)))
     elif cls == "csr.FieldPort.Signature":
         shapes = [unsigned(0), unsigned(1), 1, unsigned(8), 8, signed(8), range(256), range(16), unsigned(4), E2, unsigned(2),
-                  signed(2), unsigned(300), signed(300), 300, range(-2, 2)]
+                  signed(2), unsigned(300), signed(300), 300, range(-2, 2),
+                  # aggregate shapes given as classes and as layout objects, next to plain shapes of the same width
+                  Flags7, am_data.StructLayout({"a": 1, "b": unsigned(6)}), unsigned(7), Either5, unsigned(5),
+                  am_data.ArrayLayout(unsigned(2), 3), unsigned(6)]
         for sh in shapes:
             for acc in ("r", "w", "rw", "nc"):
                 c = Shape.cast(sh)
@@ -291,6 +294,17 @@ def grid(cls, rng):
         for _ in range(4):
             out.append(((), lambda: gpio.PinSignature()))
     return out
+
+
+class Flags7(am_data.Struct):
+    a: 1
+    b: unsigned(3)
+    c: unsigned(3)
+
+
+class Either5(am_data.Union):
+    x: unsigned(5)
+    y: unsigned(2)
 
 
 def expected_members(cls, params):
